@@ -2,6 +2,7 @@
 from lib import core, gen
 
 LEVEL = 'other'
+BBH_FEATURES = ['reason', 'oracle']      # harness command families this check needs (fallback build, lib/core.py build_bbh)
 DEPTHS = [0, 1, 2, 3, 5, 8, 13, 30, 300]
 GOALS = ['halt', 'blank', 'spin']
 
